@@ -409,3 +409,45 @@ def c18_file(parsed, rb, maps, fname):
                 bad("pair-coord", f"query label {qsite} read at {qpos}, map says {qry['pos'][qsite - 1] - qfirst}", rec)
                 break
     return out
+
+
+# ----------------------------------------------------------------------------------------------------------
+def c01_diagnose(row, clause, orientation):
+    """Structural root-cause signature of a C01 violation in a written row (from the writer tap):
+    which segments hold the two offending pairs and how they relate in the chain."""
+    segs = [(i, [(p[1], p[2]) for p in s["pos"] if p[0] == "P"], s["peak"]) for i, s in enumerate(row["segs"])]
+    flat = [(si, pr) for si, prs, _ in segs for pr in prs]
+    a = b = None
+    if clause in ("ref-unique", "qry-unique"):
+        k = 0 if clause == "ref-unique" else 1
+        seen = {}
+        for si, pr in flat:
+            if pr[k] in seen:
+                a, b = seen[pr[k]], (si, pr)
+                break
+            seen[pr[k]] = (si, pr)
+    elif clause in ("ref-ascending", "qry-monotone"):
+        for (s1, p1), (s2, p2) in zip(flat, flat[1:]):
+            if clause == "ref-ascending":
+                bad = not p2[0] > p1[0]
+            else:
+                bad = not (p2[1] > p1[1] if orientation == "+" else p2[1] < p1[1])
+            if bad:
+                a, b = (s1, p1), (s2, p2)
+                break
+    if a is None:
+        return "unlocated"
+    nonempty = [i for i, prs, _ in segs if prs]
+    if a[0] == b[0]:
+        rel = "within-one-segment"
+    else:
+        ia, ib = nonempty.index(a[0]), nonempty.index(b[0])
+        between_nonempty = abs(ia - ib) - 1
+        emptied_between = any(not prs for i, prs, _ in segs if min(a[0], b[0]) < i < max(a[0], b[0]))
+        if between_nonempty > 0:
+            rel = "non-consecutive-segments"
+        elif emptied_between:
+            rel = "neighbours-of-an-emptied-segment"
+        else:
+            rel = "consecutive-segments"
+    return f"{rel}|nseg={'2' if len(nonempty) <= 2 else '3+'}"
